@@ -13,7 +13,7 @@ MANIFEST = {
 }
 
 SPKI_SOURCES = ["third-party/tommyds/tommyhashlin.c", "third-party/tommyds/tommylist.c"]
-NM = {1: "A", 2: "R", 3: "S", 4: "L"}
+NM = {1: "A", 2: "R", 3: "S", 4: "L", 5: "C"}
 SPKI_STUBS = ["typed size-class allocator behind lrtr_malloc/lrtr_realloc/lrtr_free/lrtr_calloc (never fails here)",
               "pthread_rwlock_*: sequential ghost-state model", "hook RTRLIB_VERIF_HASHLIN_BIT=1 (2 initial buckets) unless 'unscaled'"]
 
@@ -90,10 +90,26 @@ def jobs(tier):
     for seq in quick:
         J.append(spki_job(seq, weight=3 if len(seq) > 1 else 1, timeout=1500))
     J += hl_jobs((1, 2, 3))
+    # the reload operation L (spki_table_copy_except_socket into a fresh table + swap + free of the old one, as rtr_sync does
+    # it): with both final lookups the job runs out of 28 GB, so each lookup gets its own job
+    # the reload as rtr_sync does it, in two halves (the whole operation L = copy + memcpy-swap + free gives no verdict:
+    # after the memcpy of the containers every bucket pointer is arbitrary bytes to CBMC -- 27 GB): operation C = init a fresh
+    # table, spki_table_copy_except_socket into it, free the old one, continue the history on the copy; harness_swap = the
+    # swap exchanges both containers completely inside one write section of each table
+    # (hist_AC, the copy of a NON-empty table, exhausts 28 GB in every variant tried -- with/without lookups, constant table
+    # pointer -- and is not in any tier; the copy loop's failure paths run in C18's spki_allocfail_AL_k* jobs)
+    J.append(spki_job([5, 1], weight=3, timeout=1500))
+    j = spki_job([1], name_prefix="swap_", timeout=900)
+    j.name, j.entry = "spki_swap", "harness_swap"
+    j.desc = ("real spki_table_swap on two tables holding 0/1 symbolic keys each: hash table and list of both tables exchanged "
+              "completely, callbacks stay, one write section per table (structural check, no container operation afterwards)")
+    J.append(j)
     if tier == "thorough":
         # three-operation histories (each minutes and > 10 GB) and the reload operation; longer ones are left to the
         # inductive container step below
-        J += [spki_job(s, timeout=5400, weight=5, mem=28) for s in ([1, 1, 1], [1, 1, 2], [1, 1, 3], [1, 2, 1], [1, 3, 1], [1, 1, 4], [1, 4])]
+        J += [spki_job(s, timeout=5400, weight=5, mem=28) for s in ([1, 1, 2], [1, 1, 3], [1, 2, 1], [1, 3, 1])]
+        # (measured: AAA no verdict in 25 min; histories with the reload operation L run out of 28 GB -- the reload's
+        # copy/swap/free of the real spki table is exercised by C18's spki_allocfail_AL_k* jobs, which skip the final lookups)
         # container step with 16 buckets before the step (2 materialised objects)
         J += [j for j in hl_jobs((4,), n=2, n_grow=2, timeout=3600) if "_b4_" in j.name]
     return J
